@@ -135,6 +135,8 @@ type storeFS struct {
 	// openFailOnce: the next Open (for reading) fails with an error that is not "does not exist"
 	openFailOnce bool
 	openFailSkip int // (with openFailOnce) this many Opens go through first
+	// writeHook, when set, runs before every Write of a cached copy reaches the store (name, index of the write)
+	writeHook func(name string, idx int)
 }
 
 func (s *storeFS) event(what string) {
@@ -193,9 +195,14 @@ type storeFile struct {
 	w    bool
 	// closedOnce: copyFile closes its handle explicitly and once more in a deferred call; only the first Close is a store call
 	closedOnce bool
+	nwrites    int
 }
 
 func (f *storeFile) Write(p []byte) (int, error) {
+	if h := f.s.writeHook; h != nil {
+		h(f.name, f.nwrites)
+	}
+	f.nwrites++
 	if err := f.s.tick("write " + f.name); err != nil {
 		// a failing write may have stored a part
 		if len(p) > 1 {
@@ -691,6 +698,7 @@ func readAllOf(f hackpadfs.File) ([]byte, error) {
 }
 
 func runC11(r *Rng, n int, replay string) {
+	defer runC11CrossNames(950000)
 	id := 0
 	for it := 0; id < n; it++ {
 		size := cacheSizes[it%len(cacheSizes)]
@@ -1390,5 +1398,108 @@ func runC10DirSeq(r *Rng, n, idBase int) {
 		c.Coq = "(" + cList(items) + ", " + cList(callsC) + ", " + cList(obsC) + ")"
 		c.CType, c.Check = "C10dir_case", "C10dir_check"
 		emit(c)
+	}
+}
+
+// runC11CrossNames: fills of two DIFFERENT files at overlapping times (the per-name lock lets them overlap): the copy of
+// "a" is held inside its k-th write to the cache store while "b" is opened and read completely; afterwards every open
+// of either name -- the ones in flight and later ones served from the cache -- yields that file's complete source bytes
+// ("never a truncated or mixed file").
+func runC11CrossNames(idBase int) {
+	id := idBase
+	mk := func(seed byte, n int) []byte {
+		d := make([]byte, n)
+		for i := range d {
+			d[i] = seed + byte(i%97)
+		}
+		return d
+	}
+	for _, minimal := range []bool{false, true} {
+		for _, sizes := range [][2]int{{1300, 1300}, {1300, 700}, {600, 2000}, {513, 512}} {
+			for k := 0; k < 3; k++ {
+				if k*512 >= sizes[0] {
+					continue
+				}
+				dataA, dataB := mk(1, sizes[0]), mk(101, sizes[1])
+				fs := newMem()
+				_ = hackpadfs.WriteFullFile(fs, "a", dataA, 0o644)
+				_ = hackpadfs.WriteFullFile(fs, "b", dataB, 0o644)
+				src := newSrcFS(fs)
+				st, store := newStore(minimal)
+				cfs, _ := cache.NewReadOnlyFS(src, store, cache.ReadOnlyOptions{})
+				c := &Case{ID: id, Kind: "cross-names", Trivial: true}
+				id++
+				c.Cells = []string{fmt.Sprintf("cross-names/minimal=%v", minimal)}
+				hdr := fmt.Sprintf("source a (%d bytes), b (%d bytes, other contents); the fill of a is held in its write %d to the cache store while b is opened and read", sizes[0], sizes[1], k)
+				c.Text = []string{hdr}
+				held := make(chan struct{})
+				resume := make(chan struct{})
+				var once sync.Once
+				st.writeHook = func(name string, idx int) {
+					if name == "a" && idx == k {
+						once.Do(func() {
+							close(held)
+							select {
+							case <-resume:
+							case <-time.After(2 * time.Second):
+							}
+						})
+					}
+				}
+				check := func(who, name string, want []byte) {
+					f, err := cfs.Open(name)
+					if err != nil {
+						return // an error is allowed; a wrong file is not
+					}
+					got, rerr := readAllOf(f)
+					closeIf(f)
+					if rerr == nil && !bytes.Equal(got, want) {
+						foreign := 0
+						for i := range got {
+							if i >= len(want) || got[i] != want[i] {
+								foreign++
+							}
+						}
+						c.fail(fmt.Sprintf("%s: %s of %q yields %d bytes of which %d differ from the source's %d bytes", hdr, who, name, len(got), foreign, len(want)), "cross-names:mixed:"+name)
+					}
+				}
+				doneA := make(chan struct{})
+				go func() {
+					defer close(doneA)
+					defer func() { _ = recover() }()
+					check("the open whose fill was held", "a", dataA)
+				}()
+				select {
+				case <-held:
+					doneB := make(chan struct{})
+					go func() {
+						defer close(doneB)
+						defer func() { _ = recover() }()
+						check("the open made meanwhile", "b", dataB)
+					}()
+					select {
+					case <-doneB:
+					case <-time.After(300 * time.Millisecond): // (an implementation that serialises all fills: fine)
+					}
+					close(resume)
+					<-doneB
+				case <-doneA: // the fill of a never made that write
+					close(resume)
+				case <-time.After(3 * time.Second):
+					close(resume)
+				}
+				select {
+				case <-doneA:
+				case <-time.After(5 * time.Second):
+					c.fail(hdr+": the held open never returned", "cross-names:hang")
+				}
+				st.writeHook = nil
+				for round := 0; round < 2; round++ {
+					check(fmt.Sprintf("re-open %d", round+1), "a", dataA)
+					check(fmt.Sprintf("re-open %d", round+1), "b", dataB)
+				}
+				emit(c)
+			}
+		}
 	}
 }
